@@ -182,16 +182,23 @@ def compareAtoms (op : Cmp) (a b : Atom) : Except Err Bool :=
       | .eq => e | .ne => !e | .lt => l | .le => l || e | .gt => g | .ge => g || e)
   | _, _, _ => .error .XPTY0004
 
+/-- `a eq b` under a collation (F&O §5.3: xs:string / xs:untypedAtomic values are compared by the
+collation; the other types as above) -/
+def eqAtomC? (cl : Coll) (a b : Atom) : Option Bool :=
+  match kind a, kind b with
+  | .str, .str => some (collEq cl (stringOfKey a) (stringOfKey b))
+  | _, _ => eqAtom? a b
+
 /-- §14.2.2 fn:index-of on the atomized sequence: "the positions of items equal to $search …
 items that cannot be compared, because the eq operator is not defined for their types, are
 considered to be distinct" -/
-def indexOf (xs : Seq) (v : Atom) : Seq :=
-  ((positions xs).filter fun t => eqAtom? t.1 v == some true).map fun t => Atom.int t.2
+def indexOf (cl : Coll) (xs : Seq) (v : Atom) : Seq :=
+  ((positions xs).filter fun t => eqAtomC? cl t.1 v == some true).map fun t => Atom.int t.2
 
 /-- equality used by fn:distinct-values (§14.2.1): `eq`, except that NaN equals NaN; values
 of non-comparable types are distinct -/
-def sameValue (a b : Atom) : Bool :=
-  (a == .dbl .nan && b == .dbl .nan) || eqAtom? a b == some true
+def sameValue (cl : Coll) (a b : Atom) : Bool :=
+  (a == .dbl .nan && b == .dbl .nan) || eqAtomC? cl a b == some true
 
 /-- §14.2.1 fn:distinct-values: the items that are not equal to an item kept before them, in
 order.  When `eq` is transitive on the input this is "the first occurrence of every class of
@@ -199,13 +206,15 @@ equal values"; when it is not (values of different numeric types that are equal 
 promotion) the number and choice of the results is implementation-dependent, subject to the
 constraints (a) no two results are equal, (b) every input item equals some result — this
 choice satisfies them (theorem `distinct_values_constraints`). -/
-def distinctFrom (kept : Seq) : Seq → Seq
+def distinctFrom (cl : Coll) (kept : Seq) : Seq → Seq
   | [] => []
   | x :: xs =>
-    if kept.any (fun y => sameValue y x) then distinctFrom kept xs
-    else x :: distinctFrom (kept ++ [x]) xs
+    if kept.any (fun y => sameValue cl y x) then distinctFrom cl kept xs
+    else x :: distinctFrom cl (kept ++ [x]) xs
 
-def distinctValues (xs : Seq) : Seq := distinctFrom [] xs
+/-- the one-argument form uses the default collation of the static context, the two-argument form
+the collation named by `$collation` -/
+def distinctValues (cl : Coll) (xs : Seq) : Seq := distinctFrom cl [] xs
 
 /-- F&O §7.3.1 fn:boolean / XPath §2.4.3 effective boolean value -/
 def ebv (s : Seq) : Except Err Bool :=
@@ -337,13 +346,13 @@ Numeric values: the greatest / least value; it is delivered as xs:double as soon
 occurs (NaN if any value is NaN).  F&O converts every value to xs:double before comparing;
 IEEE rounding is monotone, so the converted extremum is the conversion of the exact extremum,
 which is what is specified here. -/
-def minMaxCore (isMax : Bool) (s : Seq) : R :=
+def minMaxCore (cl : Coll) (isMax : Bool) (s : Seq) : R :=
   if outsideAgg s then .error .UNSUPPORTED else
   match s with
   | [] => .ok []
   | a :: rest =>
     if allKind .str s then
-      .ok [.str (extremum (fun x y => decide (strLtSpec x y)) isMax (stringOfKey a) (rest.map stringOfKey))]
+      .ok [.str (extremum (fun x y => collLt cl x y) isMax (stringOfKey a) (rest.map stringOfKey))]
     else if allKind .bool s then
       .ok [.bool (extremum (fun x y => !x && y) isMax (a == .bool true) (rest.map (· == .bool true)))]
     else if allKind .num s then
@@ -372,8 +381,8 @@ def fnSum (sm : Summation) (doc : List String) (s : Seq) (zero : Option Seq) : R
   ((castUntyped s).bind (castNodes doc)).bind fun v => sumCore sm v zero
 def fnAvg (sm : Summation) (doc : List String) (s : Seq) : R :=
   (avgItems (s.map (atomized doc))).bind (avgCore sm)
-def fnMinMax (doc : List String) (isMax : Bool) (s : Seq) : R :=
-  (castUntyped (s.map (atomized doc))).bind (minMaxCore isMax)
+def fnMinMax (cl : Coll) (doc : List String) (isMax : Bool) (s : Seq) : R :=
+  (castUntyped (s.map (atomized doc))).bind (minMaxCore cl isMax)
 
 /-- the string value of an item (only the lexical forms the model covers) -/
 def stringOf? (doc : List String) : Atom → Option String
@@ -436,7 +445,7 @@ def sumNodeInvalid (doc : List String) (s : Seq) : Bool :=
   (match castUntyped s with | .ok _ => true | .error _ => false) &&
   s.any fun a => match a with | .node i => (lexDouble (doc.getD i "")).isNone | _ => false
 
-def applyFn1 (sm : Summation) (doc : List String) (f : Fn1) (v : Seq) : R :=
+def applyFn1 (sm : Summation) (cl : Coll) (doc : List String) (f : Fn1) (v : Seq) : R :=
   match f with
   | .count => .ok [.int (count v)]
   | .empty => .ok [.bool (decide (v.length = 0))]
@@ -449,19 +458,19 @@ def applyFn1 (sm : Summation) (doc : List String) (f : Fn1) (v : Seq) : R :=
   | .exactlyOne => exactlyOne v
   | .sum => fnSum sm doc v none
   | .avg => fnAvg sm doc v
-  | .min => fnMinMax doc false v
-  | .max => fnMinMax doc true v
-  | .distinct => .ok (distinctValues (v.map (atomized doc)))
+  | .min => fnMinMax cl doc false v
+  | .max => fnMinMax cl doc true v
+  | .distinct => .ok (distinctValues cl (v.map (atomized doc)))
   | .stringJoin => fnStringJoin doc v none
   | .not_ => (ebv v).map fun b => [.bool (!b)]
   | .boolean => (ebv v).map fun b => [.bool b]
   | .round => fnRound v
 
-def applyFn2 (sm : Summation) (doc : List String) (f : Fn2) (va vb : Seq) : R :=
+def applyFn2 (sm : Summation) (cl : Coll) (doc : List String) (f : Fn2) (va vb : Seq) : R :=
   match f with
   | .remove => (asInteger vb).map fun p => remove va p
   | .indexOf => match vb with
-    | [x] => .ok (indexOf (va.map (atomized doc)) (atomized doc x))
+    | [x] => .ok (indexOf cl (va.map (atomized doc)) (atomized doc x))
     | _ => .error .XPTY0004
   | .subseq => (asRoundedDouble vb).map fun s => subsequence2R va s
   | .stringJoin => fnStringJoin doc va (some vb)
@@ -606,24 +615,24 @@ def sem (sm : Summation) : Expr → Ctx → R
   | .everyE bs t, c => do
     let r ← semEvery sm bs c (fun c' => (sem sm t c').bind ebv)
     pure [.bool r]
-  | .fn1 f a, c => (sem sm a c).bind (applyFn1 sm c.doc f)
+  | .fn1 f a, c => (sem sm a c).bind (applyFn1 sm c.coll c.doc f)
   | .fn2 f a b, c =>
     match f with
     | .stringJoin => do
       let va ← sem sm a c
       let vb ← sem sm b c
-      applyFn2 sm c.doc f va vb
+      applyFn2 sm c.coll c.doc f va vb
     | .sum => do
       -- `$zero` is needed only for an empty input (§2.3.4 allows not evaluating it otherwise)
       let va ← sem sm a c
       if va.length = 0 then
         let vb ← sem sm b c
-        applyFn2 sm c.doc f va vb
-      else applyFn1 sm c.doc .sum va
+        applyFn2 sm c.coll c.doc f va vb
+      else applyFn1 sm c.coll c.doc .sum va
     | _ => do
       let vb ← sem sm b c
       let va ← sem sm a c
-      applyFn2 sm c.doc f va vb
+      applyFn2 sm c.coll c.doc f va vb
   | .fn3 f a b d, c =>
     match f with
     | .insertBefore => do
